@@ -1427,13 +1427,39 @@ def r5(ctx, r):
     accepts = [e for e in common.returns(acr) if const_value(strip_casts(e.node.get("v") or {})) != 0]
     if not accepts:
         raise AnalysisBroken("appendCharRef has no accepting return")
-    # 'x' prefix tests (branching blocks) — (block, index of the edge taken when byte 1 IS x/X)
-    xblocks = []
+    # 'x' prefix tests (branching blocks) — (block, index of the edge taken when byte 1 IS x/X, a character tested).  A block may branch on one
+    # disjunct (`a == 'x'` of a short-circuit `||` used as control flow) or on the whole test computed as a value (`if (!(a == 'x' || a == 'X'))`: the
+    # disjunct blocks then only compute the value — both their edges lead to the block that branches on the full expression — and are no decisions).
+    def x_decision(c, flip=False):
+        """(index of the edge taken when byte 1 is x/X, characters tested) for a condition that is an x-test, a disjunction of `==` x-tests, a
+        conjunction of `!=` x-tests, or a negation of one of these; None otherwise"""
+        c = strip_casts(c)
+        if c is None:
+            return None
+        if c.get("k") == "un" and c.get("op") == "!":
+            return x_decision(c["v"], not flip)
+        leaves, ops, work = [], set(), [c]
+        while work:
+            x = strip_casts(work.pop())
+            if x.get("k") == "bin" and x.get("op") in ("||", "&&"):
+                ops.add(x["op"])
+                work += [x["lhs"], x["rhs"]]
+            else:
+                leaves.append(x_test(acr, x))
+        if not leaves or any(l is None for l in leaves) or len(ops) > 1 or len({l[1] for l in leaves}) != 1:
+            return None
+        eq = leaves[0][1] == "=="
+        if (ops == {"||"} and not eq) or (ops == {"&&"} and eq):
+            return None
+        return ((0 if eq else 1) ^ (1 if flip else 0)), {l[0] for l in leaves}
+    xcand = []
     for b in acr.blocks.values():
         if b.cond is not None and len(b.succs) == 2 and b.edge_label(0) is True:
-            xt = x_test(acr, b.cond)
-            if xt:
-                xblocks.append((b, 0 if xt[1] == "==" else 1, xt[0]))
+            xd = x_decision(b.cond)
+            if xd:
+                xcand.append((b, xd[0], xd[1]))
+    inner = {x.get("id") for (b, _, _) in xcand for x in walk(b.cond) if x is not strip_casts(b.cond) and x is not b.cond}
+    xblocks = [(b, hi, ch) for (b, hi, chars) in xcand if strip_casts(b.cond).get("id") not in inner for ch in sorted(chars)]
 
     def radix_relation(site, start, base, what):
         """the digits start right behind the prefix and the radix is the one the prefix selects: start 2 / radix 16 exactly when byte 1 is
